@@ -2,6 +2,7 @@ package main
 
 import (
 	"fmt"
+	"math"
 	"sort"
 
 	"github.com/zclconf/go-cty/cty"
@@ -317,7 +318,7 @@ func containsByte(s string, b byte) bool {
 
 func c06Constructors(c *Ctx) {
 	leaves := []cty.Value{
-		cty.StringVal("a"), cty.StringVal("e\u0301"), cty.StringVal("\uac00"), cty.Zero, cty.NumberFloatVal(0.5), cty.True,
+		cty.StringVal("a"), cty.StringVal("e\u0301"), cty.StringVal("\uac00"), cty.StringVal("\u212b"), cty.Zero, cty.NumberFloatVal(math.Copysign(0, -1)), cty.NumberFloatVal(0.5), cty.True,
 		cty.NullVal(cty.String), cty.UnknownVal(cty.String), cty.UnknownVal(cty.Number).RefineNotNull(), cty.DynamicVal, cty.NullVal(cty.DynamicPseudoType),
 		cty.StringVal("m").Mark(markM1), cty.UnknownVal(cty.String).Mark(markM2), cty.StringVal("mm").Mark(markM1).Mark(markM2),
 		cty.ListVal([]cty.Value{cty.StringVal("x")}), cty.ListVal([]cty.Value{cty.StringVal("x").Mark(markM3)}), cty.EmptyObjectVal,
@@ -346,6 +347,24 @@ func c06Constructors(c *Ctx) {
 			if len(ms) > 0 {
 				try("ListVal", func() cty.Value { return cty.ListVal(append([]cty.Value(nil), ms...)) })
 				try("SetVal", func() cty.Value { return cty.SetVal(append([]cty.Value(nil), ms...)) })
+				// the mutable-set route to a set value
+				try("SetValFromValueSet", func() cty.Value {
+					vs := cty.NewValueSet(ms[0].Type())
+					for _, m := range ms {
+						vs.Add(m)
+					}
+					return cty.SetValFromValueSet(vs)
+				})
+				try("SetVal.AsValueSet.Add", func() cty.Value {
+					vs := cty.SetVal([]cty.Value{ms[0]}).AsValueSet()
+					for _, m := range ms[1:] {
+						vs.Add(m)
+					}
+					return cty.SetValFromValueSet(vs)
+				})
+				try("ListOfSetVal", func() cty.Value {
+					return cty.ListVal([]cty.Value{cty.SetVal(append([]cty.Value(nil), ms...))})
+				})
 				for ni := range names {
 					ni := ni
 					try("MapVal", func() cty.Value {
